@@ -1,4 +1,5 @@
 import Proofs.EConnect
+import Proofs.SpecParse
 import Proofs.Tie.Encode
 /-!
 # C02 — everything WriteTo emits is a structurally valid MQTT v5.0 frame
@@ -11,7 +12,8 @@ them, reserved bits as prescribed — and the frame is `unparse` of that abstrac
 byte, remaining length, body in the prescribed field order. The theorem exhibits, for every
 packet of the domain, the abstract packet the emitted bytes are the writing of, and shows that its
 specification-side reading (`view`, absent = zero value) equals the values set through the API.
-The strict parser `Spec.parse` additionally reads every emitted frame in the check's run (op `SPEC`).
+`C02_reference_decoder` adds the strict parser: `Spec.parse` accepts the frame and reads the same values
+(`Spec.parse_unparse`, Proofs.SpecParse: the parser and the generator of the specification layer agree).
 -/
 namespace Mq
 open Spec (SPacket)
@@ -73,6 +75,24 @@ theorem C02_emits_valid (p : Packet) (h : p.InDomain) (bs : Bytes) (he : p.encod
   | auth q =>
     simp only [Packet.encode, Packet.Enc.bytes.injEq] at he; subst he
     obtain ⟨h1, h2, h3⟩ := E_auth q h; exact ⟨_, rfl, h1, h2, rfl, h3⟩
+
+theorem abs_canonical (p : Packet) (h : p.InDomain) (sp : SPacket) (ha : p.abs = some sp) : sp.Canonical := by
+  cases p <;> simp only [Packet.abs, Option.some.injEq, reduceCtorEq] at ha <;> subst ha <;>
+    simp only [Spec.SPacket.Canonical, Publish.abs, Ack.abs, SubAck.abs, Connect.abs, ConnAck.abs, Subscribe.abs,
+      Unsubscribe.abs, Disconnect.abs, Auth.abs]
+  rename_i q
+  intro h0
+  exact UInt16.toNat_inj.mp (by rw [h.2.2.1 h0])
+
+/-- **C02, as the property words it**: the strict reference reader of the specification layer
+(`Spec.parse`: minimal remaining length equal to what follows, nothing after the frame, reserved
+flags, booleans 0/1, allowed identifiers per packet with their wire type, at most once unless
+repeatable, non-empty lists where MQTT requires them) accepts every frame `WriteTo` emits and reads
+back exactly the values that were set -/
+theorem C02_reference_decoder (p : Packet) (h : p.InDomain) (bs : Bytes) (he : p.encode = .bytes bs) :
+    ∃ sp : SPacket, Spec.parse bs = some sp ∧ sp.kind = p.kind ∧ sp.view = p.view := by
+  obtain ⟨sp, habs, hl, hu, hk, hv⟩ := C02_emits_valid p h bs he
+  exact ⟨sp, by rw [← hu]; exact Spec.parse_unparse sp hl (abs_canonical p h sp habs), hk, hv⟩
 
 /-- exactly one frame and nothing else: first byte, the remaining length as the minimal variable
 byte integer of the number of bytes that follow (below 2^28), those bytes -/
